@@ -3,5 +3,7 @@ EXTENDS Settings
 AllDur == {"none", "zero", "ns1", "ms1", "max"}
 AllRetries == {"0", "1", "2", "maxminus1", "max"}
 AllPaths == {"new", "default", "clap", "serde"}
-AllEntries == <<"valve", "quake2", "gs1", "gs2", "gs3", "unreal2", "java", "bedrock", "legacy14", "mindustry", "savage2", "ffow", "jc2m">>
+AllEntries == <<"valve", "quake2", "gs1", "gs2", "gs3", "unreal2", "java", "bedrock", "legacy14", "mindustry", "savage2", "ffow", "jc2m",
+               \* the auto-detecting Minecraft queries: several variants tried one after the other with the same settings
+               "mcauto", "mclegacyauto">>
 =============================================================================
